@@ -258,8 +258,9 @@ Definition append_elem (i : bool) (old new : str) : res str :=
   if i then do z <- add_i64 (or0 (parse_i64 old)) (or0 (parse_i64 new)) ;; Ok (show_Z z)
   else Ok (old ++ new).
 
-(** [ShellVariable::assign_at_index] — no readonly test of its own. *)
+(** [ShellVariable::assign_at_index] *)
 Definition assign_at_index (x : var) (index value : str) (append : bool) : mres :=
+  if v_ro x then mfail x EReadonly else
   mlift x (match v_val x with
            | VUnset _ => init_empty x
            | VStr _ => to_indexed x
@@ -317,8 +318,9 @@ Definition assign (x : var) (l : vlit) (append : bool) : mres :=
     | (VStr _ | VUnset UUntyped), LScalar s => mok (set_val x (VStr s))
     end).
 
-(** [ShellVariable::unset_index] — no readonly test. Fails before touching the value. *)
+(** [ShellVariable::unset_index]. Fails before touching the value. *)
 Definition unset_index (x : var) (index : str) : res (var * bool) :=
+  if v_ro x then Err EReadonly else
   match v_val x with
   | VUnset UUntyped => Err ENotArray
   | VUnset _ => Ok (x, false)
